@@ -6,6 +6,10 @@ import (
 	"encoding/json"
 	"flag"
 	"fmt"
+	"net"
+	"os"
+	"strconv"
+	"strings"
 	"sync"
 	"sync/atomic"
 	"time"
@@ -56,7 +60,8 @@ type result struct {
 	HeldAtFault    bool     `json:"heldAtFault"` // a fault hit while the writer waited at a hand-over with a request in hand
 	FillerSent     int      `json:"fillerSent"`  // requests of other sessions used to fill the queue
 	FillerAnswered int      `json:"fillerAnswered"`
-	ResetHung      bool     `json:"resetHung"` // OnSvcAllHostReplace did not return within 5 s
+	HeldAtReset    bool     `json:"heldAtReset"` // all clients were reset while a reader was held at the entry of createClient(node)
+	ResetHung      bool     `json:"resetHung"`   // OnSvcAllHostReplace did not return within 5 s
 	Err            string   `json:"err,omitempty"`
 }
 
@@ -72,6 +77,33 @@ var (
 // histories replayed at the same time: a port picked by FreePort must be bound before anybody else looks for one.
 var startMu sync.Mutex
 
+// proxyPort picks the listening port of a processor outside the kernel's ephemeral range (call with startMu held).
+// sut.FreePort takes an ephemeral port: with several histories in one process that can be the port of a simulated node
+// which is shut down at the moment and restarts later - the processor then fails to bind, and the harness' clients
+// would talk to that node instead of the proxy.
+var portSeq int
+
+func proxyPort() int {
+	lo := 32768
+	if b, err := os.ReadFile("/proc/sys/net/ipv4/ip_local_port_range"); err == nil {
+		fmt.Sscanf(string(b), "%d", &lo)
+	}
+	if lo < 12000 {
+		return sut.FreePort()
+	}
+	span := lo - 1000 - 10000
+	for i := 0; i < 2000; i++ {
+		portSeq++
+		p := 10000 + (os.Getpid()*131+portSeq*7)%span
+		ln, err := net.Listen("tcp", fmt.Sprintf("127.0.0.1:%d", p))
+		if err == nil {
+			ln.Close()
+			return p
+		}
+	}
+	return sut.FreePort()
+}
+
 func hookAdd(f verifhook.Func) (remove func()) {
 	hookMu.Lock()
 	hookSeq++
@@ -86,14 +118,21 @@ func hookAdd(f verifhook.Func) (remove func()) {
 }
 
 func hookDispatch(point string, a, b interface{}) {
-	if point != "client.Start.drained" && point != "client.loopWrite.got" {
+	switch point {
+	case "client.Start.drained", "client.loopWrite.got", "upstream.createClient", "client.Stop":
+	default:
 		return
 	}
+	// a handler may block (gate): the subscribers are called outside the lock
 	hookMu.RLock()
+	subs := make([]verifhook.Func, 0, len(hookSubs))
 	for _, f := range hookSubs {
-		f(point, a, b)
+		subs = append(subs, f)
 	}
 	hookMu.RUnlock()
+	for _, f := range subs {
+		f(point, a, b)
+	}
 }
 
 // fillers: the traffic of other sessions that fills the in-flight queue of a stalled backend connection
@@ -102,6 +141,10 @@ const (
 	fillPerConn = 32                      // a session keeps at most 33 requests in flight
 	inflightCap = fillConns * fillPerConn // = cap(client.processingReqs) = 1024
 )
+
+// gateIDs: histories (1-based) in which a reset of all clients that follows an asking request is forced into the window
+// "reader about to create the client" (nil: all)
+var gateIDs map[int]bool
 
 func replayOne(id int, steps []step) (res result) {
 	res = result{ID: id}
@@ -155,8 +198,25 @@ func replayOne(id int, steps []step) (res result) {
 	}
 	var drained, got int64
 	var cur atomic.Value // the newest client object of the node (for VerifClientStateOf)
+	// gate at the entry of createClient(node): holds the goroutine that is about to create the client of the node (the
+	// reader of the redirecting backend's client for a redirected request) until the harness has started the reset
+	var gateState int32     // 0 off, 1 armed, 2 a goroutine is held
+	var seedStops int64     // client.Stop calls for clients of the seed
+	var gateCh atomic.Value // chan struct{}: closed to let the held goroutine go on
+	gateCh.Store(make(chan struct{}))
 	unhook := hookAdd(func(point string, a, b interface{}) {
 		switch point {
+		case "upstream.createClient":
+			if addr, ok := b.(string); ok && addr == node.Addr && atomic.CompareAndSwapInt32(&gateState, 1, 2) {
+				select {
+				case <-gateCh.Load().(chan struct{}):
+				case <-time.After(20 * time.Second):
+				}
+			}
+		case "client.Stop":
+			if two && predis.VerifDescribe(a).Addr == seed.Addr {
+				atomic.AddInt64(&seedStops, 1)
+			}
 		case "client.Start.drained":
 			if predis.VerifDescribe(a).Addr == node.Addr {
 				atomic.AddInt64(&drained, 1)
@@ -169,7 +229,7 @@ func replayOne(id int, steps []step) (res result) {
 		}
 	})
 	defer unhook()
-	px, err := sut.StartRedis(sut.RedisOpts{ConnectTO: 300 * time.Millisecond}, []string{seed.Addr})
+	px, err := sut.StartRedis(sut.RedisOpts{ConnectTO: 300 * time.Millisecond, Port: proxyPort()}, []string{seed.Addr})
 	unlock()
 	if err != nil {
 		res.Err = "start: " + err.Error()
@@ -195,6 +255,9 @@ func replayOne(id int, steps []step) (res result) {
 		// let the proxy finish processing the losses: every dying client reaches the end of its drain (hook) and then
 		// removes itself from the table
 		dl := time.Now().Add(3 * time.Second)
+		if res.ResetHung {
+			dl = time.Now() // the reset of all clients never returned: nothing will drain any more, the verdicts below stand
+		}
 		for time.Now().Before(dl) && atomic.LoadInt64(&drained) < atomic.LoadInt64(&lost) {
 			time.Sleep(time.Millisecond)
 		}
@@ -280,6 +343,12 @@ func replayOne(id int, steps []step) (res result) {
 			pend[s.R] = p
 			g0 := atomic.LoadInt64(&got)
 			key := keyOf(s.R, s.Ask)
+			gated := two && s.Ask && !stalled && i+1 < len(steps) && steps[i+1].A == "ResetAll" && (gateIDs == nil || gateIDs[id])
+			if gated {
+				// all clients are reset next: if the reader of the seed's client has to create the client of the node for
+				// this redirected request, it is held at the entry of createClient until the reset is under way
+				atomic.StoreInt32(&gateState, 1)
+			}
 			go func(r int) {
 				defer close(p.done)
 				c, err := sut.Dial(px.Addr)
@@ -302,6 +371,18 @@ func replayOne(id int, steps []step) (res result) {
 				}
 			}(s.R)
 			switch {
+			case gated:
+				dl := time.Now().Add(500 * time.Millisecond)
+			waitGate:
+				for time.Now().Before(dl) && atomic.LoadInt32(&gateState) != 2 {
+					select {
+					case <-p.done:
+						break waitGate // served without a new connection
+					default:
+						time.Sleep(200 * time.Microsecond)
+					}
+				}
+				atomic.CompareAndSwapInt32(&gateState, 1, 0)
 			case stalled && !held:
 				// the writer of the stalled connection takes the request and waits at the hand-over
 				dl := time.Now().Add(time.Second)
@@ -359,10 +440,24 @@ func replayOne(id int, steps []step) (res result) {
 			fault(func() {
 				// resetAllClients stops the old clients: bounded here, a Stop that hangs must not hang the replay
 				done := make(chan struct{})
+				heldReader := atomic.LoadInt32(&gateState) == 2
+				s0 := atomic.LoadInt64(&seedStops)
 				go func() {
 					px.P.OnSvcAllHostReplace([]*host.Host{host.New(seed.Addr)})
 					close(done)
 				}()
+				if heldReader {
+					// the reset has emptied the table and is stopping the old clients (it waits for the reader held
+					// at the gate): now the reader goes on and creates the client
+					res.HeldAtReset = true
+					dl := time.Now().Add(300 * time.Millisecond)
+					for time.Now().Before(dl) && atomic.LoadInt64(&seedStops) == s0 {
+						time.Sleep(200 * time.Microsecond)
+					}
+					time.Sleep(2 * time.Millisecond)
+					atomic.StoreInt32(&gateState, 0)
+					close(gateCh.Swap(make(chan struct{})).(chan struct{}))
+				}
 				select {
 				case <-done:
 				case <-time.After(5 * time.Second):
@@ -390,7 +485,11 @@ func replayOne(id int, steps []step) (res result) {
 	if err == nil {
 		for try := 1; try <= 3; try++ {
 			res.HealTries = try
-			v, err := c.Do(5*time.Second, "get", healKey)
+			healTO := 5 * time.Second
+			if res.ResetHung {
+				healTO = 2 * time.Second
+			}
+			v, err := c.Do(healTO, "get", healKey)
 			if err != nil {
 				res.HealText = err.Error()
 				break
@@ -428,7 +527,11 @@ func replayOne(id int, steps []step) (res result) {
 	}
 	time.Sleep(30 * time.Millisecond)
 	res.ConnsAtEnd = settleConns(1, 2*time.Second)
-	res.StopOK = sut.StopWithin(px.P, 5*time.Second)
+	stopTO := 5 * time.Second
+	if res.ResetHung {
+		stopTO = time.Second
+	}
+	res.StopOK = sut.StopWithin(px.P, stopTO)
 	time.Sleep(20 * time.Millisecond)
 	res.ConnsAfterStop = settleConns(0, 2*time.Second)
 	return
@@ -439,8 +542,17 @@ func replay(args []string) error {
 	in := fs.String("in", "", "behaviours (ndjson)")
 	out := fs.String("out", "", "results (ndjson)")
 	par := fs.Int("par", 4, "histories replayed at the same time")
+	gate := fs.String("gate", "all", "histories (1-based, comma separated) in which reset-after-asking is forced into the createClient window")
 	if err := fs.Parse(args); err != nil {
 		return err
+	}
+	if *gate != "all" {
+		gateIDs = map[int]bool{}
+		for _, f := range strings.Split(*gate, ",") {
+			if n, err := strconv.Atoi(strings.TrimSpace(f)); err == nil {
+				gateIDs[n] = true
+			}
+		}
 	}
 	predis.VerifSetSlotsRefreshTimers(time.Hour, 20*time.Millisecond)
 	verifhook.Set(hookDispatch)
